@@ -7,7 +7,9 @@ import itertools
 from sexp import A, Atom, parse, render
 from props.common import op
 
-RULE = ('field layouts (declaration order, init / pytree_node flags; exhaustive for <= 3 fields, sampled up to 6), '
+RULE = ('field layouts (declaration order, init / pytree_node flags exhaustive for <= 3 fields, sampled up to 6; per field kw_only, '
+        'default / default_factory, inherited from a base dataclass) x decorator options (slots, frozen, kw_only, order; all 16 '
+        'combinations on fixed layouts) x route (decorator, make_dataclass), '
         'decorated twice / empty namespace / non-class faults; instances with pytree field values; partials over '
         'partials with positional / keyword pytrees; distinct by request text; non-trivial = at least 2 fields')
 SETUP_LINES = []
@@ -16,28 +18,64 @@ EXTRA_TRUST = ['dataclasses.dataclass itself is not modelled: the generated clas
                'stdlib decorator produces (fields, init signature, eq, repr) by the implementation oracle']
 
 
+def _opts(rng, via=None):
+    pick = lambda pr: '1' if rng.random() < pr else '0'     # noqa: E731
+    return [A('opts'), A(str(rng.randrange(2)) if via is None else via), A(pick(0.3)), A(pick(0.3)), A(pick(0.3)), A(pick(0.2))]
+
+
+def _finish(flags, rng, opts):
+    """(init, pytree) per field -> full field specs that the stdlib accepts: non-init fields carry a default, positional
+    init fields with defaults come after those without; a prefix of the fields may be inherited from a base dataclass"""
+    n = len(flags)
+    n_inh = rng.randrange(0, n + 1) if n and rng.random() < 0.3 else 0
+    all_kw = opts[4] == '1'
+    seen_default = False
+    out = []
+    for j, (i, p) in enumerate(flags):
+        kwonly = rng.random() < 0.4
+        dflt = rng.choice([0, 0, 1, 2])
+        if i == '0':
+            dflt = dflt or rng.choice([1, 2])
+        elif not (kwonly or all_kw):
+            if seen_default:
+                dflt = dflt or 1
+            seen_default = seen_default or dflt != 0
+        out.append([f'f{j}', A(i), A(p), A('1' if kwonly else '0'), dflt, A('1' if j < n_inh else '0')])
+    return out
+
+
 def layouts(tier, rng):
     flags = [(i, p) for i in '10' for p in '10']
     out = []
     for n in range(0, 4):
         for combo in itertools.product(flags, repeat=n):
-            out.append([[f'f{j}', A(i), A(p)] for j, (i, p) in enumerate(combo)])
-    extra = 60 if tier == 'quick' else 1500
+            opts = _opts(rng)
+            out.append((opts, _finish(list(combo), rng, opts)))
+    # every combination of the decorator options on a few fixed layouts, both routes
+    for via in '01':
+        for bits in itertools.product('01', repeat=4):
+            opts = [A('opts'), A(via), *[A(b) for b in bits]]
+            for combo in ([('1', '1'), ('1', '0'), ('0', '0')], [('1', '0'), ('1', '1'), ('1', '1')]):
+                if tier == 'quick' and rng.random() < 0.5:
+                    continue
+                out.append((opts, _finish(combo, rng, opts)))
+    extra = 80 if tier == 'quick' else 2500
     for _ in range(extra):
         n = rng.randrange(4, 7)
-        out.append([[f'f{j}', A(rng.choice('1110')), A(rng.choice('110'))] for j in range(n)])
+        opts = _opts(rng)
+        out.append((opts, _finish([(rng.choice('1110'), rng.choice('110')) for _ in range(n)], rng, opts)))
     return out
 
 
 def generate(gen, tier):
     rng = gen.rng
     cases = []
-    for fields in layouts(tier, rng):
+    for opts, fields in layouts(tier, rng):
         for faults in (('1', '0', '0'), ('1', '1', '0'), ('1', '0', '1'), ('0', '0', '0')):
             if faults != ('1', '0', '0') and rng.random() < 0.8:
                 continue
-            cases.append({'lines': [op('dcpart', A(faults[0]), A(faults[1]), A(faults[2]), *fields)],
-                          'o': {'kind': 'dc', 'req': render([A('dcpart'), A(faults[0]), A(faults[1]), A(faults[2]), *fields])}})
+            req = [A('dcpart'), A(faults[0]), A(faults[1]), A(faults[2]), opts, *fields]
+            cases.append({'lines': [render(req)], 'o': {'kind': 'dc', 'req': render(req)}})
     n = 60 if tier == 'quick' else 1500
     for _ in range(n):
         cases.append({'lines': [], 'o': {'kind': 'partial', 'seed': rng.randrange(10**6)}})
@@ -47,7 +85,7 @@ def generate(gen, tier):
 def nontrivial(case):
     if case['o']['kind'] == 'partial':
         return True
-    return len(parse(case['o']['req'])) >= 6
+    return len(parse(case['o']['req'])) >= 7
 
 
 def distribution(cases):
@@ -60,6 +98,7 @@ def distribution(cases):
 def oracle(impl, o):
     import dataclasses as std
     import functools
+    import inspect
     import random
     import optree
     import optree.dataclasses as odc
@@ -67,27 +106,34 @@ def oracle(impl, o):
     fails = []
     if o['kind'] == 'dc':
         req = parse(o['req'])
-        fields = [(str(n), i == '1', p == '1') for n, i, p in req[4:]]
-        faulty = req[1] == '0' or req[2] == '1' or req[3] == '1' or any(p and not i for _, i, p in fields)
+        is_class, already, ns_empty, opts, fields = dc_impl.parse_req(req)
+        route = 'make_dataclass' if opts['via'] == 1 else 'decorator'
+        faulty = (not is_class) or already or ns_empty or any(p and not i for _, i, p, _, _, _ in fields)
         try:
             (children, metadata), cls, ns = dc_impl.partition(req)
         except (TypeError, ValueError) as e:
             if not faulty:
-                fails.append({'key': 'dc-rejected', 'what': f'valid layout rejected: {type(e).__name__}: {e}'})
+                fails.append({'key': f'dc-rejected-{route}', 'what': f'valid declaration rejected ({route}, options '
+                              f'{ {k: v for k, v in opts.items() if v and k != "via"} }): {type(e).__name__}: {e}'})
             return fails
         except Exception as e:  # noqa: BLE001
             return [{'key': 'dc-exception', 'what': f'{type(e).__name__}: {e}'}]
         if faulty:
             return [{'key': 'dc-fault-accepted', 'what': 'a faulty declaration was accepted'}]
-        want_children = [n for n, i, p in fields if p]
-        want_md = [n for n, i, p in fields if not p and i]
+        want_children = [n for n, i, p, _, _, _ in fields if p]
+        want_md = [n for n, i, p, _, _, _ in fields if not p and i]
         if children != want_children or metadata != want_md:
-            fails.append({'key': 'dc-partition', 'what': f'children {children} / metadata {metadata}, expected {want_children} / {want_md}'})
-        # instance with pytree values in the children
-        vals = {n: ((j, [j + 1]) if p else j * 10) for j, (n, i, p) in enumerate(fields) if i}
+            fails.append({'key': f'dc-partition-{route}', 'what': f'{route}: children {children} / metadata {metadata}, expected '
+                          f'{want_children} / {want_md} (pytree_node fields / other init fields, declaration order)'})
+            return fails
+        # instance with pytree values in the children; fields with defaults are sometimes left to their default
+        rng = random.Random(len(o['req']))
+        vals = {n: ((j, [j + 1]) if p else j * 10) for j, (n, i, p, _, d, _) in enumerate(fields)
+                if i and (d == 0 or rng.random() < 0.6)}
         obj = cls(**vals)
+        full = {n: getattr(obj, n) for n, *_ in fields}
         leaves, spec = optree.tree_flatten(obj, namespace=ns)
-        want_leaves = [x for n in want_children for x in optree.tree_leaves(vals[n])]
+        want_leaves = [x for n in want_children for x in optree.tree_leaves(full[n])]
         if leaves != want_leaves:
             fails.append({'key': 'dc-leaves', 'what': f'leaves {leaves}, expected {want_leaves} (pytree_node fields in declaration order)'})
         if optree.tree_leaves(obj) != [obj] or optree.tree_leaves(obj, namespace='some-other-ns') != [obj]:
@@ -95,39 +141,41 @@ def oracle(impl, o):
         if spec.entries() != want_children:
             fails.append({'key': 'dc-entries', 'what': f'entries {spec.entries()} are not the children field names'})
         rebuilt = optree.tree_unflatten(spec, leaves)
-        if type(rebuilt) is not cls or rebuilt != obj:
-            fails.append({'key': 'dc-roundtrip', 'what': 'unflatten does not reconstruct an equal instance'})
+        if type(rebuilt) is not cls or rebuilt != obj or type(rebuilt) is not type(obj):
+            fails.append({'key': 'dc-roundtrip', 'what': f'unflatten does not reconstruct an equal instance of the same class '
+                          f'({route}, options { {k: v for k, v in opts.items() if v and k != "via"} }): '
+                          f'{type(rebuilt).__qualname__}@{id(type(rebuilt)):#x} vs {cls.__qualname__}@{id(cls):#x}'})
+        mapped = optree.tree_map(lambda x: x, obj, namespace=ns)
+        if type(mapped) is not cls or mapped != obj:
+            fails.append({'key': 'dc-map-identity', 'what': 'tree_map(identity) does not give back an equal instance of the class'})
         accs = optree.tree_accessors(obj, namespace=ns)
         for a, leaf in zip(accs, leaves):
             if a(obj) is not leaf and a(obj) != leaf:
                 fails.append({'key': 'dc-accessor', 'what': f'accessor {a!r} does not reach its leaf'})
                 break
-        # the class is otherwise the one dataclasses.dataclass would produce
-        ns_dict = {'__annotations__': {n: int for n, _, _ in fields}}
-        seen_default = False
-        for n, i, p in fields:
-            kw = {'init': i}
-            if not i or seen_default:
-                kw['default'] = 0
-                seen_default = seen_default or i
-            ns_dict[n] = std.field(kw_only=True, **kw) if i else std.field(**kw)
-        ref = std.dataclass(type(cls.__name__, (), ns_dict))
-        sig = lambda c: [(f.name, f.init, f.kw_only, f.default is std.MISSING) for f in std.fields(c)]   # noqa: E731
+        # the class is otherwise the one dataclasses would produce from the same declaration
+        ref, _ = dc_impl.build_class(req, module='std')
+        sig = lambda c: [(f.name, f.init, f.kw_only, f.default is std.MISSING, f.default_factory is std.MISSING,   # noqa: E731
+                          f.repr, f.compare) for f in std.fields(c)]
         if sig(ref) != sig(cls):
-            fails.append({'key': 'dc-differs-from-stdlib', 'what': f'fields differ from dataclasses.dataclass: {sig(cls)} vs {sig(ref)}'})
-        if repr(ref(**vals)).split('(', 1)[1] != repr(obj).split('(', 1)[1]:
+            fails.append({'key': f'dc-differs-from-stdlib-{route}', 'what': f'{route}: fields differ from what dataclasses produces: '
+                          f'{sig(cls)} vs {sig(ref)}'})
+        robj = ref(**vals)
+        if repr(robj).split('(', 1)[1] != repr(obj).split('(', 1)[1]:
             fails.append({'key': 'dc-repr', 'what': 'repr differs from the stdlib dataclass'})
+        traits = lambda c, x: (hasattr(c, '__slots__') and '__dict__' not in dir(x), c.__dataclass_params__.frozen,   # noqa: E731
+                               c.__dataclass_params__.order, c.__dataclass_params__.eq, getattr(c, '__match_args__', None),
+                               str(inspect.signature(c)))
+        if traits(ref, robj) != traits(cls, obj):
+            fails.append({'key': f'dc-traits-differ-from-stdlib-{route}', 'what': f'{route}: slots / frozen / order / eq / '
+                          f'__match_args__ / signature differ: {traits(cls, obj)} vs {traits(ref, robj)}'})
         # __post_init__ is re-run on unflatten
         calls = []
-        ns2 = f'{ns}-pi'
-        pi_dict = dict(ns_dict)
-        for n, i, p in fields:
-            kw = {'init': i, 'pytree_node': p}
-            if not i:
-                kw['default'] = 0
-            pi_dict[n] = odc.field(kw_only=True, **kw) if i else odc.field(**kw)
-        pi_dict['__post_init__'] = lambda self: calls.append(1)
-        cls2 = odc.dataclass(type(cls.__name__ + 'P', (), pi_dict), namespace=ns2)
+        try:
+            cls2, ns2 = dc_impl.build_class(req, extra={'__post_init__': lambda self: calls.append(1)})
+        except Exception as e:  # noqa: BLE001
+            fails.append({'key': 'dc-post-init-class', 'what': f'{type(e).__name__}: {e}'})
+            return fails
         o2 = cls2(**vals)
         n_before = len(calls)
         optree.tree_map(lambda x: x, o2, namespace=ns2)
